@@ -720,6 +720,84 @@ func walk(c *core.Ctx, p *fparams, data []byte) (*walked, error) {
 	return w, nil
 }
 
+// walkStructural locates the modules without opening them: offsets come from
+// the metadata as decrypted by the implementation itself, sizes from the
+// length fields.  Used for the tamper enumeration when the model's AADs do not
+// open the file (the enumeration must not depend on the model being right).
+func walkStructural(p *fparams, data []byte) (w *walked, err error) {
+	defer func() {
+		if r := recover(); r != nil {
+			err = fmt.Errorf("PANIC: %v", r)
+		}
+	}()
+	f, err := parquet.OpenFile(bytes.NewReader(data), int64(len(data)), parquet.WithDecryption(&keyset{p: p}))
+	if err != nil {
+		return nil, err
+	}
+	w = &walked{Meta: *f.Metadata()}
+	n := len(data)
+	flen := int(binary.LittleEndian.Uint32(data[n-8:]))
+	fstart := n - 8 - flen
+	footer := data[fstart : n-8]
+	envLen := func(off int) int { return 4 + int(binary.LittleEndian.Uint32(data[off:])) }
+	if p.EncFooter {
+		var cm format.FileCryptoMetaData
+		k, err := decodeThrift(footer, &cm)
+		if err != nil {
+			return nil, err
+		}
+		w.Mods = append(w.Mods, module{Type: 0, Off: fstart + k, Len: flen - k, Key: "footer"})
+	} else {
+		w.Mods = append(w.Mods, module{Type: 0, Off: n - 8 - 28, Len: 28, Key: "footer", Sig: true})
+	}
+	for i := range w.Meta.RowGroups {
+		rg := &w.Meta.RowGroups[i]
+		for j := range rg.Columns {
+			ch := &rg.Columns[j]
+			md := &ch.MetaData
+			keyName := "footer"
+			if cm, ok := ch.CryptoMetadata.Value.(*format.EncryptionWithColumnKey); ok {
+				keyName = strings.Join(cm.PathInSchema, ".")
+			}
+			if enc := ch.EncryptedColumnMetadata; len(enc) > 0 {
+				w.Mods = append(w.Mods, module{Type: 1, RG: i, Col: j, Off: fstart + bytes.Index(footer, enc), Len: len(enc), Key: keyName})
+			}
+			w.Mods = append(w.Mods, module{Type: 8, RG: i, Col: j, Off: int(ch.ColumnIndexOffset), Len: int(ch.ColumnIndexLength), Key: keyName},
+				module{Type: 9, RG: i, Col: j, Off: int(ch.OffsetIndexOffset), Len: int(ch.OffsetIndexLength), Key: keyName})
+			pos := int(md.DataPageOffset)
+			first := md.DictionaryPageOffset != 0
+			if first {
+				pos = int(md.DictionaryPageOffset)
+			}
+			end := pos + int(md.TotalCompressedSize)
+			for pg := 0; pos < end; {
+				ht, bt, ord := 3, 2, pg
+				if first {
+					ht, bt, ord = 5, 4, 0
+				}
+				for _, typ := range []int{ht, bt} {
+					l := envLen(pos)
+					w.Mods = append(w.Mods, module{Type: typ, RG: i, Col: j, Page: ord, Off: pos, Len: l, Key: keyName})
+					pos += l
+				}
+				if !first {
+					pg++
+				}
+				first = false
+			}
+			if md.BloomFilterOffset != 0 {
+				pos := int(md.BloomFilterOffset)
+				for _, typ := range []int{6, 7} {
+					l := envLen(pos)
+					w.Mods = append(w.Mods, module{Type: typ, RG: i, Col: j, Off: pos, Len: l, Key: keyName})
+					pos += l
+				}
+			}
+		}
+	}
+	return w, nil
+}
+
 func b01(b bool) string {
 	if b {
 		return "1"
@@ -819,6 +897,11 @@ func checkModelHistories(c *core.Ctx, p *fparams, w *walked, data []byte, count 
 
 // ---------------------------------------------------------------------------
 // (c) plaintext scan
+
+var (
+	scanWitness      = map[string]int{}
+	scanWitnessFiles int
+)
 
 func markersOf(rows []rowP) map[string][][]byte {
 	m := map[string][][]byte{}
@@ -945,6 +1028,20 @@ func checkFile(c *core.Ctx, p *fparams, record bool) bool {
 	// (c)
 	if !plaintextScan(c, p, rows, data, w) {
 		ok = false
+	}
+	if record && p.Codec == "uncompressed" && scanWitnessFiles < 8 {
+		// the same scan finds the markers of every column in the unencrypted twin
+		if twin, err := p.write(rows, false); err == nil {
+			scanWitnessFiles++
+			for col, ms := range markersOf(rows) {
+				for _, m := range ms {
+					if bytes.Contains(twin, m) {
+						scanWitness[col]++
+						break
+					}
+				}
+			}
+		}
 	}
 	// (b) all keys
 	full := &keyset{p: p}
@@ -1211,7 +1308,9 @@ func buildTamperFile(c *core.Ctx, p *fparams) *tfile {
 	w, err := walk(c, p, data)
 	if err != nil {
 		c.Mismatch("corr:C18.aad", p.String(), "AES-GCM with the model's AADs fails: "+err.Error(), "every module opens under make_aad", p)
-		return nil
+		if w, err = walkStructural(p, data); err != nil {
+			return nil
+		}
 	}
 	if cls, what := classify(p, rows, data, &keyset{p: p}); cls != "identical-data-nil-error" {
 		c.Violation("roundtrip", fmt.Sprintf("untampered file does not read back: %s %s; file %s", cls, what, p), map[string]any{"kind": "file", "params": p})
@@ -1265,19 +1364,29 @@ func (t *tfile) apply(tc *tamperCase, other *tfile) []byte {
 	return d
 }
 
-func (t *tfile) runCase(c *core.Ctx, tc *tamperCase, other *tfile) bool {
-	var cls, what string
+// eval applies the mutation and classifies the read ("" = does not apply).
+func (t *tfile) eval(tc *tamperCase, other *tfile) (string, string) {
 	if tc.Mut.Kind == "wrong-key" {
 		ks := &keyset{p: t.p, wrong: map[string][]byte{tc.Mut.Key: derive(t.p.Seed, "wrong/"+tc.Mut.Key, t.p.KeyLen)}}
-		cls, what = classify(t.p, t.rows, t.data, ks)
-	} else {
-		d := t.apply(tc, other)
-		if d == nil {
-			return true
-		}
-		cls, what = classify(t.p, t.rows, d, &keyset{p: t.p})
+		return classify(t.p, t.rows, t.data, ks)
 	}
-	c.Case(fmt.Sprintf("tamper/%s/type=%d", tc.Mut.Kind, tc.Target.Type), fmt.Sprintf("%s|%v|%+v|%v", t.p, tc.Target, tc.Mut, tc.Mut.Src), true)
+	d := t.apply(tc, other)
+	if d == nil {
+		return "", ""
+	}
+	return classify(t.p, t.rows, d, &keyset{p: t.p})
+}
+
+func (t *tfile) runCase(c *core.Ctx, tc *tamperCase, other *tfile) bool {
+	cls, what := t.eval(tc, other)
+	return t.report(c, tc, cls, what)
+}
+
+func (t *tfile) report(c *core.Ctx, tc *tamperCase, cls, what string) bool {
+	if cls == "" {
+		return true
+	}
+	c.Case(fmt.Sprintf("tamper/%s/type=%d", tc.Mut.Kind, tc.Target.Type), fmt.Sprintf("%d|%v|%+v|%v", t.p.Seed, tc.Target, tc.Mut, tc.Mut.Src), true)
 	if cls == "error" {
 		return true
 	}
@@ -1360,12 +1469,25 @@ func enumerate(c *core.Ctx, t *tfile, other *tfile, kind string, onlyType int, s
 				if !all && stride > 1 && b%stride != (mi%stride) && b >= 20 && b < m.Len-20 {
 					continue
 				}
-				out = append(out, tamperCase{*t.p, m, mutation{Kind: "flip", Byte: b, Bit: (b*5 + mi) % 8}})
+				bit := (b*5 + mi) % 8
+				if !m.Sig && b == 2 {
+					bit %= 4 // length field: the reader allocates what it announces (at most +512 KiB here)
+				}
+				if !m.Sig && b == 3 {
+					bit = 0 // +16 MiB
+					if mi%8 != 0 && mi != len(mods)-1 {
+						continue
+					}
+					if mi == len(mods)-1 {
+						bit = 7 // one 2 GiB announcement per file: no panic, no hang
+					}
+				}
+				out = append(out, tamperCase{*t.p, m, mutation{Kind: "flip", Byte: b, Bit: bit}})
 			}
 		}
 		if want("length") && !m.Sig {
 			ml := uint32(m.Len - 4)
-			for _, v := range []uint32{0, 27, 28, ml - 1, ml + 1, ml / 2, ml + 4096, 1 << 20} {
+			for _, v := range []uint32{0, 27, 28, ml - 1, ml + 1, ml / 2, ml + 4096} {
 				if v != ml {
 					out = append(out, tamperCase{*t.p, m, mutation{Kind: "length", Val: v}})
 				}
@@ -1408,7 +1530,7 @@ func enumerate(c *core.Ctx, t *tfile, other *tfile, kind string, onlyType int, s
 }
 
 func tamperEnumeration(c *core.Ctx) {
-	nFiles := c.N(4, 12)
+	nFiles := c.N(6, 16)
 	stride := c.N(9, 1)
 	pairs := 0
 	for i := 0; i < nFiles; i++ {
@@ -1445,22 +1567,28 @@ func tamperEnumeration(c *core.Ctx) {
 			if reported[tc.Mut.Kind] {
 				continue
 			}
-			if c.Probe(func() { t.runCase(c, tc, other) }) {
-				reported[tc.Mut.Kind] = true
-				min := shrinkTamper(c, tc)
-				mt := buildTamperFile(c, &min.Params)
-				var mo *tfile
-				if min.Mut.Kind == "xfile" {
-					mq := min.Params
-					mq.FileID++
-					mo = buildTamperFile(c, &mq)
-				}
-				if mt != nil {
-					mt.runCase(c, min, mo)
-				}
-			} else {
-				t.runCase(c, tc, other)
+			cls, what := t.eval(tc, other)
+			if cls == "" || cls == "error" {
+				t.report(c, tc, cls, what)
+				continue
 			}
+			// not rejected: look for a smaller file showing the same, report that one
+			reported[tc.Mut.Kind] = true
+			min := shrinkTamper(c, tc)
+			if min != tc {
+				if mt := buildTamperFile(c, &min.Params); mt != nil {
+					var mo *tfile
+					if min.Mut.Kind == "xfile" {
+						mq := min.Params
+						mq.FileID++
+						mo = buildTamperFile(c, &mq)
+					}
+					if !mt.runCase(c, min, mo) {
+						continue
+					}
+				}
+			}
+			t.report(c, tc, cls, what)
 		}
 		if i == 0 {
 			c.Sample(map[string]any{"tamper_file": p, "modules": len(t.w.Mods), "cases": len(cases)})
@@ -1539,13 +1667,12 @@ func scenarioPageOrdinals(c *core.Ctx) {
 		return buf.Bytes(), nil
 	}
 	p := &fparams{Seed: 78, KeyLen: 16, EncFooter: true}
-	sizes := []int{32768, 32769}
-	if !c.Quick() {
-		sizes = append(sizes, 65537)
-	}
+	sizes := []int{32768, 32769, 65537}
 	for _, n := range sizes {
 		var data []byte
 		var err error
+		tn := time.Now()
+		defer func(n int) { c.Note("page ordinals: %d pages: %.1fs", n, time.Since(tn).Seconds()) }(n)
 		o := guard(120*time.Second, func(o *outcome) { data, err = writeN(n, n == 32768) })
 		if o.failed() {
 			c.Violation("page-ordinal-wrap", fmt.Sprintf("writing %d pages: panic=%q hung=%v", n, o.Panic, o.Hung), map[string]any{"kind": "page-ordinals", "pages": n})
@@ -1653,7 +1780,7 @@ func run(c *core.Ctx) {
 	}
 	// (a)(b)(c)
 	t0 := time.Now()
-	nFiles := c.N(48, 400)
+	nFiles := c.N(140, 900)
 	var vm []string
 	for i := 0; i < nFiles; i++ {
 		p := genParams(c, i)
@@ -1665,6 +1792,11 @@ func run(c *core.Ctx) {
 		if i < 12 {
 			vm = append(vm, vmCases(c, p)...)
 		}
+	}
+	c.Note("plaintext scan witness: in %d unencrypted twin files the scan finds a marker of column id/name/opt/tags/val in %d/%d/%d/%d/%d files",
+		scanWitnessFiles, scanWitness["id"], scanWitness["name"], scanWitness["opt"], scanWitness["tags"], scanWitness["val"])
+	if scanWitnessFiles > 0 && (scanWitness["id"] == 0 || scanWitness["name"] == 0 || scanWitness["val"] == 0 || scanWitness["tags"] == 0) {
+		c.Violation("harness-vacuous", "the plaintext scan does not find the markers in unencrypted files either", nil)
 	}
 	t1 := time.Now()
 	scenarioBeginRowGroup(c)
